@@ -5,7 +5,7 @@ CONSTANTS Threads = {1,2,3,4}
           Closers = {4}
           Values = {1,2}
           MaxUpd = 2
-          MaxFail = 2
+          MaxFail = 1
           InitVals = {1}
           Devs = {}
 INVARIANTS TypeOK NoRegression NoDuplicatePublish WaitPubCovers ClosePublishesPending TimerImpliesPending NotStuck WaiterOnlyWhileRetrying
